@@ -3078,6 +3078,63 @@ func c08r29(c *Ctx, r *Report) {
 	r.floor("action lists dispatched by Terminal.Loop", n, 5)
 }
 
+// c15r26: the number of rows an item occupies under --wrap depends on the width left after pointer and marker
+// (wrapCols), and Terminal.numLinesCache remembers it per item. Whoever changes that width empties the cache
+// (toggle-wrap, toggle-multi-line and a resize do) (D105: change-pointer to another width did not: the next
+// repaint placed every following item by the stale count — rows overlapped and the first row of the current item
+// disappeared).
+func c15r26(c *Ctx, r *Report) {
+	l := c.L
+	r.rule("C15-R26", "A (a new pointer width empties the line-count cache)", "P1",
+		"in Terminal.Loop and its closures, every store into Terminal.pointerLen is accompanied by a call of Terminal.clearNumLinesCache: on every path from the store to a return, or in front of it under a comparison of the new width with Terminal.pointerLen",
+		"under --wrap, after change-pointer to another width the list is painted with the row counts of the old width: rows overlap or stay blank")
+	loop := l.Fn("fzf", "(*Terminal).Loop")
+	clr := l.Fn("fzf", "(*Terminal).clearNumLinesCache")
+	fP := l.Field("fzf", "Terminal", "pointerLen")
+	if loop == nil || clr == nil || fP == nil {
+		r.unest("anchors", token.NoPos, nil, "anchors Terminal.Loop / clearNumLinesCache / pointerLen", "cannot resolve")
+		return
+	}
+	isClr := func(in ssa.Instruction) bool { return staticCallee(in) == clr }
+	n := 0
+	cc := cdCache{}
+	for _, fn := range withClosures(loop) {
+		eachInstr(fn, func(in ssa.Instruction) {
+			st, ok := in.(*ssa.Store)
+			if !ok {
+				return
+			}
+			if f, _ := fieldOf(st.Addr); f != fP {
+				return
+			}
+			n++
+			// the cache may be emptied in front of the store, under the test that the width really changes (a
+			// comparison with the current Terminal.pointerLen), as forceRerenderList is
+			before := false
+			eachInstr(fn, func(in2 ssa.Instruction) {
+				if !isClr(in2) || !canReach(in2, st) {
+					return
+				}
+				for cond := range cc.of(in2) {
+					bo, ok := cond.(*ssa.BinOp)
+					if !ok || (bo.Op != token.NEQ && bo.Op != token.EQL) {
+						continue
+					}
+					for _, side := range []ssa.Value{bo.X, bo.Y} {
+						if f, _ := loadedField(side); f == fP {
+							before = true
+						}
+					}
+				}
+			})
+			hit := pathAvoiding(st, isReturn, isClr, nil)
+			r.check(before || hit == nil, fmt.Sprintf("%s:change #%d of the pointer width empties the line-count cache", relName(rootFn(fn)), n), st.Pos(), fn,
+				"clearNumLinesCache accompanies the store", "the pointer width changes and the handler returns with the cached row counts of the old width")
+		})
+	}
+	r.floor("stores into Terminal.pointerLen in Terminal.Loop", n, 1)
+}
+
 func round10(c *Ctx, r *Report, prop string) {
 	switch prop {
 	case "C01":
@@ -3133,6 +3190,7 @@ func round10(c *Ctx, r *Report, prop string) {
 		c15r23(c, r)
 		c15r24(c, r)
 		c15r25(c, r)
+		c15r26(c, r)
 	case "C17":
 		c17r28(c, r)
 		c17r29(c, r)
